@@ -23,6 +23,12 @@ _ALLOWED_FUNCTIONS: dict[str, Callable[..., sympy.Expr]] = {
     "min": sympy.Min,
     "Min": sympy.Min,
     "floor": sympy.floor,
+    # Printed forms of math.ceil(dim) and math.trunc(dim)
+    "ceiling": sympy.ceiling,
+    "ceil": sympy.ceiling,
+    "Abs": sympy.Abs,
+    "abs": sympy.Abs,
+    "sign": sympy.sign,
     "sqrt": sympy.sqrt,
     "mod": sympy.Mod,
     "Mod": sympy.Mod,
@@ -112,7 +118,7 @@ class _ExpressionParser:
 
     Supports:
         - Basic arithmetic: +, -, *, /, //, %, **
-        - Functions: max(), min(), floor(), sqrt()
+        - Functions: max(), min(), floor(), ceiling(), abs(), sign(), sqrt(), mod()
         - Symbolic variables (identifiers)
         - Integer literals
         - Parentheses for grouping
@@ -294,7 +300,7 @@ def parse_symbolic_expression(value: str) -> sympy.Expr:
 
     Supports:
         - Basic arithmetic: +, -, *, /, //, %, **
-        - Functions: max(), min(), floor(), sqrt()
+        - Functions: max(), min(), floor(), ceiling(), abs(), sign(), sqrt(), mod()
         - Symbolic variables (identifiers)
         - Integer literals
         - Parentheses for grouping
